@@ -40,7 +40,10 @@ def gen_cases(tier, seed):
         sch = dict(r.choice(scheds))
         sch["sched_seed"] = r.randrange(1 << 30)
         use = r.random() < 0.93
-        yield {"spec": spec, "driver": driver, "bs": bs, "workers": r.choice([0, 1, 2, 4, 8, 16]), "policy": pol, "plan": sch, "overwrite": r.random() < 0.25, "use": use, "maxblocks": maxblocks, "fs": "ext4",
+        single = [e["p"] for e in spec if e["k"] == "f"][0] if r.random() < 0.12 else None
+        if single:
+            spec = [e for e in spec if e["k"] == "d" or e["p"] == single]     # one file named on the command line, copied to a new name
+        yield {"single": single, "spec": spec, "driver": driver, "bs": bs, "workers": r.choice([0, 1, 2, 4, 8, 16]), "policy": pol, "plan": sch, "overwrite": r.random() < 0.25, "use": use, "maxblocks": maxblocks, "fs": "ext4",
                "extra": r.choice([[], [], [], ["--no-perms"], ["--no-timestamps"], ["--no-perms", "--no-timestamps"], ["--ownership"], ["--backup", "numbered"], ["-L"], ["--gitignore"], ["--reflink", "never"]])}
 
 
@@ -67,7 +70,9 @@ def run_case(case):
             rules.append({"id": "s", "sys": "copy_file_range", "under": root + "/", "action": "short", "len": "half"})
         plan = dict(case["plan"])
         plan.update({"log_mode": "full", "rules": rules, "pct_horizon": 600})
-        args = ["--driver", case["driver"], "-w", str(case["workers"]), "--block-size", str(case["bs"])] + (["--fsync"] if case["use"] else []) + case.get("extra", []) + ["-r", "src", "dst"]
+        args = ["--driver", case["driver"], "-w", str(case["workers"]), "--block-size", str(case["bs"])] + (["--fsync"] if case["use"] else []) + case.get("extra", []) + (["-r", "src", "dst"] if not case.get("single") else [case["single"], "dst-file"])
+        if case.get("single") and case.get("overwrite"):
+            tree.materialize(root, [{"p": "dst-file", "k": "f", "size": 123456, "seed": 5, "segs": None}])
         run = core.run_xcp(sb, args, plan)
         if run.verdict != "exited":
             res["inconc"].append("run-" + run.verdict)
